@@ -113,6 +113,12 @@ where
 
     /// Await this task until it is ready and we've received the result.
     pub async fn ready(&self) -> T {
+        // Register for the "ready" signal _before_ checking for an already existing result. The
+        // signal is fired with `notify_waiters` which does not store a permit: if we would only
+        // start waiting after the check, a result arriving right in-between would be missed and
+        // we would wait forever.
+        let notified = self.ready_signal.notified();
+
         // Check if an result already exists and return it directly.
         {
             let ready_result = self.ready_result.lock().await;
@@ -124,7 +130,7 @@ where
         }
 
         // If not, we wait until we got notified that an result exists.
-        self.ready_signal.notified().await;
+        notified.await;
 
         let ready_result = self.ready_result.lock().await;
         ready_result
